@@ -1,7 +1,7 @@
 ID = "C17"
 CONFIG = dict(
     harness="c17_headers",
-    harnesses=["c17_registry"],
+    harnesses=["c17_registry", "c17_keyparser"],
     fuzz_harnesses=[],
     flavours=["plain", "asan"],
     fuzz=True,
